@@ -395,4 +395,22 @@ PROPS = {
                  "tx code/codespace/data/log/gas and ordered events of two in-process executions and a second process; export -> import -> per-module genesis, keeper queries, "
                  "invariants, remaining history; probes for the audited order-dependent sites.",
  },
+ "C01": {
+  "modules": ["OsmoVerif.Props.C01"],
+  "min_theorems": 25,
+  "fingerprints": ["CL.*"],
+  "engines": [{"name": "cl", "kind": "app", "n": {"quick": 2000, "thorough": 30000}, "shards": {"quick": 4, "thorough": 16}},
+              {"name": "clmath", "kind": "pure", "n": {"quick": 20000, "thorough": 300000}, "shards": {"quick": 2, "thorough": 16}}],
+  "rule": "cl: histories on one concentrated pool through the real keeper by three accounts (create/add/partial+full withdraw/swaps of both kinds and directions from 1 unit to "
+          "draining/collects/incentive creation/time advances/transfers); the solvency oracle (everybody claims and withdraws everything on a discarded branch; claimable sums <= "
+          "balances) runs every few ops and at the end of every history; distinct = distinct op lines",
+  "trusted_base": ["C03 rounding theorems", "C07 bookkeeping invariant", "cosmos-sdk bank"],
+  "assumptions": ["theorems cover the PRINCIPAL balances of the pool address and the spread-fee transfers over the pool state machine (bit-exact with the keeper); the spread-reward "
+                  "and incentive balances covering what is claimable (accumulators are not in the model) are decided by the engine oracle together with C08/C15",
+                  "a withdrawal is shown never to be blocked by FUNDS; bit-length overflow of the amount arithmetic is excluded only by the engine's ranges",
+                  "positions bound by a lock are outside the model"],
+  "explanation": "potential argument in rationals: V0/V1 = sum over positions of the exact curve amounts at the current sqrt price; every op keeps bal >= V (deposits round up, "
+                 "withdrawals round down, every swap step's in-amount is a whole number of tokens >= the exact amount and its out-amount <= exact, tick crossings change active "
+                 "liquidity by the tick's net liquidity and V is continuous there)",
+ },
 }
